@@ -44,7 +44,7 @@ def _profiles():
 
 def plan(tier):
     main, probes = _profiles()
-    out = [{"name": "main", "examples": 3000 if tier == "quick" else 100000}]
+    out = [{"name": "main", "examples": 3000 if tier == "quick" else 100000}, {"name": "shaped", "examples": 1500 if tier == "quick" else 40000}]
     for name in probes:
         out.append({"name": name, "examples": 320 if tier == "quick" else 3200, "shards": 4})
     return out
@@ -118,7 +118,7 @@ def scenario(draw, prof):
             send("LEAVE")
         if d.chance(25):
             send(d.pick(inner))
-        if d.chance(12):
+        if d.chance(30):
             hist.append(["restore"])
         send("RESUME" if d.chance(65) else "RESUME2")
         if d.chance(20):
@@ -126,7 +126,87 @@ def scenario(draw, prof):
     return {"spec": spec, "history": hist, "P": P}
 
 
+@st.composite
+def shaped_scenario(draw):
+    """Hand-shaped family: P is a parallel state (or a compound wrapping one) whose regions own
+    atomic, final and nested-compound children, so that the remembered configuration regularly
+    holds a final leaf next to an atomic one, and a compound child left in a non-initial
+    grandchild; a snapshot->restore sits before the RESUME half of the time."""
+    d = D(draw)
+
+    def region(key, i):
+        kids = [{"key": "s0", "kind": "atomic"}, {"key": "s1", "kind": "atomic"}]
+        on0 = [["A" if i == 0 else "B", [{"target": ["@", "s1"], "actions": []}]]]
+        has_final = d.chance(60)
+        has_nested = d.chance(60)
+        if has_final:
+            kids.append({"key": "f", "kind": "final"})
+            on0.append(["C" if i == 0 else "D", [{"target": ["@", "f"], "actions": []}]])
+        if has_nested:
+            kids.append({"key": "c", "kind": "compound", "initial": "c0", "children": [
+                {"key": "c0", "kind": "atomic", "on": [["A", [{"target": ["@", "c", "c1"], "actions": []}]]]},
+                {"key": "c1", "kind": "atomic"}]})
+            on0.append(["D" if i == 0 else "C", [{"target": ["@", "c"] + (["c1"] if d.chance(50) else []), "actions": []}]])
+        r = {"key": key, "kind": "compound", "initial": "s0", "children": kids, "on": on0}
+        if d.chance(30):
+            r["children"].append({"key": "rh", "kind": "history", "hist": d.pick(["shallow", "deep"])})
+        return r
+
+    nreg = d.int(2, 3)
+    wrap = d.chance(40)
+    regs = [region(f"r{i}", i) for i in range(nreg)]
+    par = {"key": "W" if wrap else "P", "kind": "parallel", "children": regs}
+    ppath = ["P", "W"] if wrap else ["P"]
+    for r in regs:
+        rp = ppath + [r["key"]]
+        for ev, ts in r["on"]:
+            for t in ts:
+                t["target"] = rp + t["target"][1:]
+        for c in r["children"]:
+            for ev, ts in c.get("on", []):
+                for t in ts:
+                    t["target"] = rp + t["target"][1:]
+            for g in c.get("children", []):
+                for ev, ts in g.get("on", []):
+                    for t in ts:
+                        t["target"] = rp + t["target"][1:]
+    if wrap:
+        P = {"key": "P", "kind": "compound", "initial": "W", "children": [par, {"key": "alt", "kind": "atomic"}]}
+    else:
+        P = par
+    h = {"key": "h", "kind": "history", "hist": d.pick(["deep", "deep", "shallow"])}
+    if d.chance(25):
+        h["htarget"] = (["P", "W"] if wrap else ["P"]) + ["r1", "s1"]
+    P["children"].append(h)
+    P["on"] = [["LEAVE", [{"target": ["O"], "actions": []}]]]
+    O = {"key": "O", "kind": "atomic", "on": [["RESUME", [{"target": ["P", "h"], "actions": []}]]]}
+    root = {"key": "m", "kind": "compound", "initial": d.pick(["P", "O"]), "children": [P, O],
+            "on": [["RESUME2", [{"target": ["P", "h"], "actions": []}]], ["ENTER", [{"target": ["P"], "actions": []}]]]}
+    spec = {"id": "m", "root": root, "context": {"n": 0}, "maxIterations": 30, "tables": {}, "services": {}}
+    finalize(spec)
+    inner = ["A", "B", "C", "D"]
+    hist = []
+    seq = [0]
+
+    def send(t):
+        hist.append(["send", t, seq[0]])
+        seq[0] += 1
+
+    if root["initial"] == "O" or d.chance(30):
+        send("ENTER")
+    for _ in range(d.int(1, 3)):
+        for _ in range(d.int(1, 5)):
+            send(d.pick(inner))
+        send("LEAVE")
+        if d.chance(50):
+            hist.append(["restore"])
+        send("RESUME" if d.chance(65) else "RESUME2")
+    return {"spec": spec, "history": hist, "P": "m.P"}
+
+
 def strategy(tier, campaign):
+    if campaign == "shaped":
+        return shaped_scenario()
     main, probes = _profiles()
     prof = gen.profile(**(main if campaign == "main" else probes[campaign]))
     return scenario(prof)
